@@ -240,6 +240,7 @@ func (t *Torrent) WritePiece(src storage.PieceReader, pi int) error {
 		// Multiple threads may attempt to move the download file to cache, however
 		// only one will succeed while the others will receive (and ignore) file exist
 		// error.
+		verifYield("writePiece.beforeMove", pi)
 		err := t.cads.MoveDownloadFileToCache(t.metaInfo.Digest().Hex())
 		if err != nil && !os.IsExist(err) {
 			return fmt.Errorf("download completed but failed to move file to cache directory: %s", err)
